@@ -9,6 +9,7 @@ import (
 	"math/rand"
 	"reflect"
 	"sort"
+	"strings"
 
 	"github.com/blues/jsonata-go/jtypes"
 )
@@ -30,6 +31,52 @@ func Count(v reflect.Value) int {
 // distinctKey is the type of the keys that stand for unhashable
 // items in Distinct. It cannot collide with a string item.
 type distinctKey string
+
+// distinctCanon renders an array or object as a string in which
+// equal values have equal renderings whatever Go types hold them
+// (numbers as float64, any slice as a list, any string-keyed map
+// as an object with sorted keys), while values of different JSON
+// kinds stay apart ({"a":1} and {"a":"1"}).
+func distinctCanon(v reflect.Value) string {
+	v = jtypes.Resolve(v)
+	switch {
+	case !v.IsValid():
+		return "null"
+	case (v.Kind() == reflect.Ptr || v.Kind() == reflect.Interface) && v.IsNil():
+		return "null"
+	case jtypes.IsCallable(v):
+		return fmt.Sprintf("fn:%#v", v.Interface())
+	}
+	if n, ok := jtypes.AsNumber(v); ok {
+		return fmt.Sprintf("n:%v", n)
+	}
+	if s, ok := jtypes.AsString(v); ok {
+		return fmt.Sprintf("s:%q", s)
+	}
+	if b, ok := jtypes.AsBool(v); ok {
+		return fmt.Sprintf("b:%v", b)
+	}
+	if jtypes.IsArray(v) {
+		parts := make([]string, v.Len())
+		for i := range parts {
+			parts[i] = distinctCanon(v.Index(i))
+		}
+		return "[" + strings.Join(parts, ",") + "]"
+	}
+	if jtypes.IsMap(v) {
+		keys := v.MapKeys()
+		parts := make([]string, len(keys))
+		for i, k := range keys {
+			parts[i] = fmt.Sprintf("%q:%s", fmt.Sprint(k.Interface()), distinctCanon(v.MapIndex(k)))
+		}
+		sort.Strings(parts)
+		return "{" + strings.Join(parts, ",") + "}"
+	}
+	if v.CanInterface() {
+		return fmt.Sprintf("%#v", v.Interface())
+	}
+	return fmt.Sprintf("%v", v)
+}
 
 // Distinct returns the values passed in with any duplicates removed.
 func Distinct(v reflect.Value) interface{} {
@@ -63,7 +110,7 @@ func Distinct(v reflect.Value) interface{} {
 				// to a string that is hashable. The Go-syntax
 				// representation keeps values of different kinds
 				// apart, e.g. {"a":1} and {"a":"1"}.
-				mapItem := distinctKey(fmt.Sprintf("%#v", item.Interface()))
+				mapItem := distinctKey(distinctCanon(item))
 				if _, ok := visited[mapItem]; ok {
 					continue
 				}
@@ -73,11 +120,18 @@ func Distinct(v reflect.Value) interface{} {
 				continue
 			}
 
-			if _, ok := visited[item.Interface()]; ok {
+			var key interface{} = item.Interface()
+			if n, ok := jtypes.AsNumber(item); ok {
+				// 1 held in an int (e.g. the result of $count)
+				// and 1 held in a float64 are the same number.
+				key = n
+			}
+
+			if _, ok := visited[key]; ok {
 				continue
 			}
 
-			visited[item.Interface()] = struct{}{}
+			visited[key] = struct{}{}
 			distinctValues = reflect.Append(distinctValues, item)
 		}
 		return distinctValues.Interface()
